@@ -1,6 +1,7 @@
 package rules
 
 import (
+	"strconv"
 	"strings"
 
 	"golang.org/x/tools/go/ssa"
@@ -94,6 +95,82 @@ func c08Pair(c *core.Ctx) {
 	}
 }
 
+// c08Store: what the proofs are read from — every node of a path is stored, a missing node is reported as missing
+// only when it is missing, and "the last root" is the last in (block, position-in-block) order.
+func c08Store(c *core.Ctx) {
+	const rule = "C08-store"
+	sx := core.NewSymx()
+	sn := c.MustFn(rule, "tree", "Tree", "storeNodes")
+	if sn != nil {
+		var done []core.IfEdge
+		for _, b := range sn.Blocks {
+			if iff, ok := b.Instrs[len(b.Instrs)-1].(*ssa.If); ok {
+				s := sx.Of(iff.Cond).String()
+				if s == "(loop{const(0)} < len(nodes))" || s == "((loop{const(-1)} + const(1)) < len(nodes))" {
+					done = append(done, core.IfEdge{B: b, Succ: 1, If: iff})
+				}
+			}
+		}
+		ok := len(done) == 1
+		for _, rc := range core.ReturnCases(sn) {
+			if len(rc.Values) == 1 && isNilConst(rc.Values[0]) {
+				ok = ok && rc.ReachableOnlyVia(sn, done)
+			}
+		}
+		c.Decide(ok, rule, "tree.(*Tree).storeNodes#all-nodes", sn.Pos(), "storeNodes reports success only after the loop went over every node (a duplicate row skips that node only)")
+	}
+	// db.ErrNotFound is produced only for sql.ErrNoRows (or an absent node), never for other read errors
+	n := 0
+	for _, fn := range c.AllFuncs() {
+		if fn.Pkg == nil || fn.Pkg.Pkg.Path() != core.P("tree") {
+			continue
+		}
+		for _, rc := range core.ReturnCases(fn) {
+			if len(rc.Values) == 0 {
+				continue
+			}
+			last := rc.Values[len(rc.Values)-1]
+			if sx.Of(last).String() != "db.ErrNotFound" {
+				continue
+			}
+			n++
+			noRows := core.TermEdges(fn, sx, func(s string, _ *core.Term) bool {
+				return strings.HasPrefix(s, "errors.Is(") && strings.HasSuffix(s, ", database/sql.ErrNoRows)")
+			}, true)
+			absent := core.TermEdges(fn, sx, func(s string, _ *core.Term) bool {
+				return strings.HasSuffix(s, "#0 == const(nil))") && strings.Contains(s, "getRHTNode(")
+			}, true)
+			c.Decide(rc.ReachableOnlyVia(fn, append(noRows, absent...)), rule, "tree.ErrNotFound@"+core.ShortFn(fn)+"@"+guardName(rc.Reach()), rc.Ret.Pos(), "db.ErrNotFound is returned only when the row really does not exist (sql.ErrNoRows); other read errors stay errors, so getSiblings never pads a failed read with zero hashes")
+		}
+	}
+	if n == 0 {
+		c.Undecide(rule, "tree.ErrNotFound", 0, "no ErrNotFound returns found in the tree package")
+	}
+	lr := c.MustFn(rule, "tree", "Tree", "getLastRootWithTx")
+	if lr != nil {
+		ok := false
+		core.Instrs(lr, func(i ssa.Instruction) {
+			if core.CallName(i) != "github.com/russross/meddler.QueryRow" {
+				return
+			}
+			t := sx.Of(core.AsCall(i).Args[2])
+			format := ""
+			t.Walk(func(x *core.Term) {
+				if x.Op == "const" && strings.Contains(x.Name, "SELECT") {
+					format = x.Name
+				}
+			})
+			if uq, err := strconv.Unquote(format); err == nil {
+				format = uq
+			}
+			tk := " " + strings.Join(sqlTokensUpper(format), " ") + " "
+			ok = strings.HasSuffix(tk, " ORDER BY BLOCK_NUM DESC , BLOCK_POSITION DESC LIMIT 1 ") && strings.Contains(sx.Of(core.AsCall(i).Args[2]).String(), "t.rootTable") &&
+				stripIface(core.AsCall(i).Args[0]) == ssa.Value(lr.Params[1])
+		})
+		c.Decide(ok, rule, "tree.(*Tree).getLastRootWithTx#statement", lr.Pos(), "the last root is the last in (block_num, block_position) order, read on the caller's handle")
+	}
+}
+
 func init() {
 	register(&Property{
 		ID:    "C08",
@@ -101,6 +178,7 @@ func init() {
 		Explanation: "Decides the orientation agreement of the six functions that walk the 32-level tree (a necessary condition of 'every proof verifies against its root'): each has a per-level test of the index bit (recognised forms idx&(1<<h) {>,!=,==} 0 and (idx>>h)&1 {==,!=} {0,1}), covers levels 0..31 or 31..0 with the very variable used in the bit test, and on the bit-set edge treats the running node as a RIGHT child — builders hash (sibling[h], running) and (running, sibling[h]) on the clear edge; walkers descend into node.Right / node.Left of the node fetched for the running hash; getSiblings records node.Left / node.Right accordingly and substitutes zeroHashes[h] only when the node is absent; AddLeaf reads lastLeftCache[h] / zeroHashes[h] and writes the cache on the clear edge only; UpsertLeaf uses the siblings of the same index. This is the verifier's (CalculateRoot) and the contracts' convention, so a single flipped site is reported at that site. C08-pair: GetProof returns the siblings of the (index, root) asked, and callers pass index and root hash of one root. Not decided: that proof values recompute the root for all tree contents (an induction over contents), and 'last written as of that root' (content addressing of rht is trusted).",
 		Rules: []Rule{
 			{ID: "C08-orient", Floor: 12, Run: c08Orient, Text: "[TREE] bit test, level range and left/right roles agree in all six walkers"},
+			{ID: "C08-store", Floor: 6, Run: c08Store, Text: "[DOM]+SQL: every path node stored; ErrNotFound only for sql.ErrNoRows; last root by (block_num, block_position)"},
 			{ID: "C08-pair", Floor: 3, Run: c08Pair, Text: "[PROV] (index, root) pairs passed to proof generation belong together"},
 		},
 	})
